@@ -90,7 +90,10 @@ def Mac(name, args):
 
 
 def term_text(name):
-    # terminals are quoted literals whose text is the name; keep them free of escapes
+    # terminals are quoted literals whose text is the name; keep them free of escapes.
+    # A name starting with "$" is a bare (identifier) terminal: "$X" is declared and used as `X`.
+    if name.startswith("$"):
+        return name[1:]
     return '"%s"' % name
 
 
